@@ -370,3 +370,105 @@ static void run_c13_rules(void)
     wl_rt_stop(&rt);
 }
 SIM_WORKLOAD("C13", "rules", run_c13_rules, 2)
+
+/* ---- scenario "sequence": one unit at a time, no concurrent requests, so every step has one
+ * legal outcome.  The unit moves between pools by migration requests to itself and by other
+ * means (ABT_self_set_associated_pool; termination and ABT_thread_revive into another pool),
+ * and asks again for pools it has been migrated to before.  Every accepted request must be
+ * performed at the next scheduling point with exactly one callback; the other moves must be
+ * performed without a callback. ---- */
+#define SQ_MAX 10
+static struct {
+    wl_rt rt;
+    ABT_thread th;
+    int nsteps[2], kind[2][SQ_MAX], pool[2][SQ_MAX];
+    volatile int life, cb_calls, done[2], go;
+    long migrations, other_moves;
+} Q;
+static void sq_cb(ABT_thread th, void *arg)
+{
+    (void)th;
+    (void)arg;
+    Q.cb_calls++;
+}
+static int sq_pool_index(ABT_pool p)
+{
+    for (int i = 0; i < Q.rt.npools; i++)
+        if (Q.rt.pools[i] == p)
+            return i;
+    return -1;
+}
+static void sq_fn(void *arg)
+{
+    (void)arg;
+    int life = Q.life;
+    ABT_thread self;
+    ABT_pool lp;
+    while (!Q.go) /* the callback is registered by the creator after the creation */
+        ABT_OK(ABT_thread_yield());
+    ABT_OK(ABT_self_get_thread(&self));
+    ABT_OK(ABT_self_get_last_pool(&lp));
+    int cur = sq_pool_index(lp);
+    for (int i = 0; i < Q.nsteps[life]; i++) {
+        int p = Q.pool[life][i];
+        int cb0 = Q.cb_calls;
+        if (Q.kind[life][i] == 0) {
+            int rc = ABT_thread_migrate_to_pool(self, Q.rt.pools[p]);
+            if (p == cur) {
+                SIM_CHECK(rc != ABT_SUCCESS, "migrate:same-pool-accepted", "a request naming the unit's current pool %d was accepted", p);
+                continue;
+            }
+            SIM_CHECK(rc == ABT_SUCCESS, "migrate:request-rejected", "ABT_thread_migrate_to_pool(pool %d) of a unit in pool %d returned %d", p, cur, rc);
+            ABT_OK(ABT_thread_yield());
+            ABT_OK(ABT_self_get_last_pool(&lp));
+            SIM_CHECK(sq_pool_index(lp) == p, "migrate:lost-request", "step %d of life %d: the accepted request for pool %d was not performed at the next scheduling point: the unit runs in pool %d (before: pool %d)",
+                      i, life, p, sq_pool_index(lp), cur);
+            SIM_CHECK(Q.cb_calls == cb0 + 1, "migrate:callback-count", "step %d of life %d: the callback ran %d times for one performed migration", i, life, Q.cb_calls - cb0);
+            Q.migrations++;
+            cur = p;
+        } else {
+            ABT_OK(ABT_self_set_associated_pool(Q.rt.pools[p]));
+            ABT_OK(ABT_thread_yield());
+            ABT_OK(ABT_self_get_last_pool(&lp));
+            SIM_CHECK(sq_pool_index(lp) == p, "migrate:set-associated-pool", "after ABT_self_set_associated_pool(pool %d) and a yield the unit runs in pool %d", p, sq_pool_index(lp));
+            SIM_CHECK(Q.cb_calls == cb0, "migrate:callback-without-migration", "the migration callback ran for ABT_self_set_associated_pool");
+            Q.other_moves++;
+            cur = p;
+        }
+        sim_progress();
+    }
+    Q.done[life] = 1;
+}
+static void run_c13_sequence(void)
+{
+    memset(&Q, 0, sizeof Q);
+    wl_rt *rt = &Q.rt;
+    wl_rt_start(rt, WL_RT_NO_TOPO2);
+    sim_note("C13 sequence: ");
+    for (int l = 0; l < 2; l++) {
+        Q.nsteps[l] = plan_range(1, SQ_MAX);
+        for (int i = 0; i < Q.nsteps[l]; i++) {
+            Q.kind[l][i] = plan_n(3) == 0;
+            Q.pool[l][i] = (int)plan_n((uint32_t)rt->npools);
+            sim_note("%s%d ", Q.kind[l][i] ? "set" : "mig", Q.pool[l][i]);
+        }
+        sim_note("| ");
+    }
+    ABT_OK(ABT_thread_create(rt->pools[plan_n((uint32_t)rt->npools)], sq_fn, NULL, ABT_THREAD_ATTR_NULL, &Q.th));
+    ABT_OK(ABT_thread_set_callback(Q.th, sq_cb, NULL));
+    Q.go = 1;
+    ABT_OK(ABT_thread_join(Q.th));
+    SIM_CHECK(Q.done[0], "once:not-exactly-once", "the unit did not finish its first life");
+    if (plan_bool()) {
+        /* a second life in another pool: earlier targets are requested again */
+        Q.life = 1;
+        ABT_OK(ABT_thread_revive(rt->pools[plan_n((uint32_t)rt->npools)], sq_fn, NULL, &Q.th));
+        ABT_OK(ABT_thread_join(Q.th));
+        SIM_CHECK(Q.done[1], "once:not-exactly-once", "the revived unit did not finish");
+    }
+    ABT_OK(ABT_thread_free(&Q.th));
+    wl_rt_stop(rt);
+    sim_count("c13.sequence_migrations", (uint64_t)Q.migrations);
+    sim_count("c13.sequence_other_moves", (uint64_t)Q.other_moves);
+}
+SIM_WORKLOAD("C13", "sequence", run_c13_sequence, 4)
